@@ -140,7 +140,7 @@ def _c07_align_jobs(tier, func="VerifC07_Alignment"):
 
 def _c07_multi_jobs(tier):
     jobs = []
-    shapes = [(2, 2, 1), (2, 1, 2)] if tier == "quick" else [(2, 2, 2), (3, 2, 2), (2, 3, 2), (2, 2, 3)]
+    shapes = [(2, 2, 1), (2, 1, 2)] if tier == "quick" else [(2, 2, 2), (3, 2, 1), (2, 3, 1), (3, 1, 2)]
     for qual in (0, 1):
         for (r, ml, o) in shapes:
             if tier == "quick" and qual == 1 and o == 2:
@@ -498,4 +498,22 @@ CHECKS["C02"] = {
     "assumptions": ["fmt.{Fprintf,Fprint,Sprintf,Sprint} are replaced by the model in /verif/models/zz_verifmodel (verbs %s %d %v %c, '*' width, '.*' precision, Formatter/Stringer/error operands); natively the real fmt runs, and every witness is replayed natively"],
     "explanation": "symbolic coordinates/scores in [-99,999], strands, text bytes, colour, blocks; written by the real writer (through the fmt model) and parsed by the real reader; field-by-field equality; a BED-n record written at width m reads back as its first m columns",
     "outside": "coordinates beyond +-999 in the round trip, text fields longer than stated, arbitrary float scores",
+}
+
+
+def c14_jobs(tier):
+    jobs = []
+    shapes = [(2, 3, 0, 1, 4, 4, 0), (2, 3, 0, 1, 4, 4, 1)] if tier == "quick" else [(2, 3, 0, 1, 4, 4, 0), (2, 3, 0, 1, 4, 4, 1), (2, 4, 1, 1, 5, 5, 0), (2, 3, 0, 2, 5, 4, 0)]
+    for (k, n, e, off, tl, ql, self) in shapes:
+        j = {"pkgdir": "align/pals/filter", "func": "VerifC14_Filter", "sched": "det", "fsmodel": True,
+             "params": {"k": k, "n": n, "e": e, "offset": off, "tlen": tl, "qlen": ql, "self": self}, "timeout_s": 900 if tier == "quick" else 3000}
+        jobs.append(j)
+    return jobs
+
+
+CHECKS["C14"] = {
+    "jobs": c14_jobs,
+    "functions": ["filter.{New,(*Filter).Filter,commonKmer,hitTube,tubeEnd,tubeFlush,addHit,diagIndex,tubeIndex,MinWordsPerFilterHit}", "kmerindex (as C10)", "morass in-memory path"],
+    "explanation": "tiny bounds: both sequences symbolic over {a,c,g,t}; every pair of length-n windows with at most e substitutions must be covered by a reported hit (query interval overlaps, diagonal band contains the match diagonal, read as the consumer MergeFilterHit reads it)",
+    "outside": "anything beyond |T|,|Q| <= 5 and k = 2",
 }
